@@ -64,6 +64,7 @@ AccVal(md, nd, s, id) ==
      [] s.k = "absent" -> <<0>>
      [] s.k = "empty" -> <<>>
      [] s.k = "made_with" -> MadeWith(md, id, s.l, s.v)
+     [] s.k = "via" -> IF HasLink(nd, s.l) THEN <<s.v>> ELSE Refused     \* read through a link (a function's parameters: its mapping's)
 
 \* everything the interface must answer about a created node
 Expected(md, id) ==
